@@ -554,6 +554,9 @@ func init() {
 						}
 					}
 					if tier == "quick" {
+						if rd >= 3 {
+							continue // the unreadable-byte model under a time-ordered read multiplies by the chunk orders: thorough tier
+						}
 						errj(f.tpl, f.cfg, f.cs, f.validate, rd, rd%2, 512)
 					} else {
 						errj(f.tpl, f.cfg, f.cs, f.validate, rd, rd%2, 576)
@@ -566,11 +569,11 @@ func init() {
 			return js
 		},
 		bounds: map[string]any{
-			"quick":    map[string]any{"file": "T5 chunked (one chunk per message, CRC on), validating lexer; for the lexer also T6 unchunked (attachment read through the callback incl. its stored CRC, metadata)", "readers": "lexer; non-indexed iterator; indexed iterator in file order and in log-time order", "fragmentation": "one short read at symbolic read-call index J (0..95, cells of 8; beyond the last call the run is the plain one) returning symbolic K bytes (1..9: every split of a 9-byte record header); every read limited to 1, 2, 5 bytes; final bytes delivered together with io.EOF", "io_error": "error at symbolic byte position E (cells of 16 over the whole file), delivered on its own call or together with the last good bytes: sticky for the sequential readers; for index-based reads byte E alone is unreadable (reads that do not touch it succeed, and a read that never needs it must return everything); for Messages() with the index (and on files without chunk indexes / without chunks, where it seeks back and scans) also a failure of the Seek call with symbolic index S in 0..15 (more Seek calls than the reads make)", "symbolic": "J, K, E, every field value and byte of the file"},
+			"quick":    map[string]any{"file": "T5 chunked (one chunk per message, CRC on), validating lexer; for the lexer also T6 unchunked (attachment read through the callback incl. its stored CRC, metadata)", "readers": "lexer; non-indexed iterator; indexed iterator in file order and in log-time order", "fragmentation": "one short read at symbolic read-call index J (0..95, cells of 8; beyond the last call the run is the plain one) returning symbolic K bytes (1..9: every split of a 9-byte record header); every read limited to 1, 2, 5 bytes; final bytes delivered together with io.EOF", "io_error": "error at symbolic byte position E (cells of 16 over the whole file), delivered on its own call or together with the last good bytes: sticky for the sequential readers; for index-based reads (file order; time orders in the thorough tier) byte E alone is unreadable (reads that do not touch it succeed, and a read that never needs it must return everything); for Messages() with the index (and on files without chunk indexes / without chunks, where it seeks back and scans) also a failure of the Seek call with symbolic index S in 0..15 (more Seek calls than the reads make)", "symbolic": "J, K, E, every field value and byte of the file"},
 			"thorough": map[string]any{"files": "T5 (one chunk per message; validating lexer), T6 unchunked (sequential readers and file-order Messages()); the xor-codec file was dropped: its short-read jobs do not finish within the budget", "readers": "as quick + reverse log-time order", "fragmentation": "J over 0..111", "io_error": "both delivery forms at every position of the first file, one form elsewhere"},
 		},
 		outside:     append([]string{"a one-shot (non-sticky) error delivered together with the last bytes a ReadFull needs: io.ReadAtLeast drops it by specification", "more than one short read per run (the every-read-limited schedules cover repeated fragmentation)"}, outsideCommon...),
-		assumptions: append([]string{"stored chunk CRCs are non-zero (with the CRC uninterpreted, 0 is otherwise a feasible value and means 'validation not available'; a real CRC-32 is 0 with probability 2^-32)", "ideal checksum: two CRC values are equal exactly when the byte sequences fed are equal (an accidental collision between a truncated chunk and the stored CRC has probability 2^-32)"}, commonAssumptions...),
+		assumptions: append([]string{"stored chunk CRCs are non-zero (with the CRC uninterpreted, 0 is otherwise a feasible value and means 'validation not available'; a real CRC-32 is 0 with probability 2^-32)"}, commonAssumptions...),
 	}
 }
 
